@@ -50,7 +50,7 @@ func (m *Model) GetConsumable(name string, opts ...resource.ReadOption) (*traits
 }
 
 func (m *Model) UpdateConsumable(consumable *traits.Consumable, opts ...resource.WriteOption) (*traits.Consumable, error) {
-	if consumable.Name == "" {
+	if consumable.GetName() == "" { // (getter: a caller may hand in no consumable at all)
 		return nil, status.Error(codes.NotFound, "name not specified")
 	}
 	msg, err := m.consumables.Update(consumable.Name, consumable, opts...)
@@ -139,7 +139,7 @@ func (m *Model) GetStock(consumable string, opts ...resource.ReadOption) (*trait
 }
 
 func (m *Model) UpdateStock(stock *traits.Consumable_Stock, opts ...resource.WriteOption) (*traits.Consumable_Stock, error) {
-	if stock.Consumable == "" {
+	if stock.GetConsumable() == "" { // (getter: a request may leave the stock out altogether)
 		return nil, status.Error(codes.NotFound, "consumable not specified")
 	}
 	msg, err := m.inventory.Update(stock.Consumable, stock, opts...)
